@@ -192,3 +192,15 @@ func TestVerifWitness_C09_standalone_file_in_workspace(t *testing.T) {
 	}
 	fmt.Println("WITNESS-HOLDS")
 }
+
+// C09 server.findCommodityReferences#loop4.inv2.preserve: a commodity used in a cost or a balance assertion is an occurrence.
+func TestVerifWitness_C09_commodity_in_cost_and_assertion(t *testing.T) {
+	content := "2024-01-01 x\n    assets:broker  10 AAPL @ 150 USD\n    assets:cash  -1500 USD\n\n2024-01-02 y\n    assets:bank  = 100 USD\n    assets:cash\n"
+	j, _ := parser.Parse(content)
+	n := len(findCommodityReferences("USD", nil, "/tmp/a.journal", j, true))
+	if n != 3 {
+		fmt.Printf("WITNESS-FAILS USD occurs as a cost (line 2), an amount (line 3) and an assertion (line 6): %d references\n", n)
+		return
+	}
+	fmt.Println("WITNESS-HOLDS")
+}
